@@ -1298,3 +1298,70 @@ Proof.
   destruct (axes_of sa) as [|a [|? ?]]; try discriminate. destruct (axes_of da) as [|b [|? ?]]; try discriminate.
   cbn [map]. apply moveaxis_single_check; [apply (norm_range _ _ R1) | apply (norm_range _ _ R2)]; now left.
 Qed.
+
+(* ===================================================================== index::argsort (the insertion sort that
+   moveaxis uses to order the destinations): for EVERY list the result is a permutation of the
+   positions and the keys ascend along it *)
+From Coq Require Import Sorted.
+
+Section Argsort.
+Variable key : nat -> Z.
+Let R (x y : nat) : Prop := key y <= key x.     (* the reversed prefix: largest key first *)
+
+Lemma ins_rev_perm x rl : Permutation (ins_rev key x rl) (x :: rl).
+Proof.
+  induction rl as [|y t IH]; cbn [ins_rev]; [reflexivity|].
+  destruct (key x <? key y); [|reflexivity].
+  apply perm_trans with (y :: x :: t); [now apply perm_skip | apply perm_swap].
+Qed.
+
+Lemma ins_rev_sorted x rl : StronglySorted R rl -> StronglySorted R (ins_rev key x rl).
+Proof.
+  induction rl as [|y t IH]; intros Hs; cbn [ins_rev]; [constructor; constructor|].
+  apply StronglySorted_inv in Hs as [Ht Hy].
+  destruct (Z.ltb_spec (key x) (key y)) as [Hlt|Hge].
+  - constructor; [now apply IH|]. apply Forall_forall. intros z Hz.
+    apply (Permutation_in _ (ins_rev_perm x t)) in Hz. destruct Hz as [<-|Hz]; [unfold R; lia|].
+    rewrite Forall_forall in Hy. now apply Hy.
+  - constructor; [constructor; assumption|]. constructor; [unfold R; lia|].
+    rewrite Forall_forall in Hy |- *. intros z Hz. specialize (Hy z Hz). unfold R in *. lia.
+Qed.
+
+Lemma fold_ins_rev xs : forall rl, StronglySorted R rl ->
+  StronglySorted R (fold_left (fun rl x => ins_rev key x rl) xs rl)
+  /\ Permutation (fold_left (fun rl x => ins_rev key x rl) xs rl) (xs ++ rl).
+Proof.
+  induction xs as [|x xs IH]; intros rl Hs; cbn [fold_left]; [split; [assumption | reflexivity]|].
+  destruct (IH _ (ins_rev_sorted x rl Hs)) as [S P]. split; [assumption|].
+  apply perm_trans with (xs ++ ins_rev key x rl); [assumption|].
+  apply perm_trans with (xs ++ x :: rl); [apply Permutation_app_head, ins_rev_perm|].
+  symmetry. apply Permutation_middle.
+Qed.
+
+Lemma sorted_snoc (Q : nat -> nat -> Prop) l x : StronglySorted Q l -> Forall (fun y => Q y x) l ->
+  StronglySorted Q (l ++ [x]).
+Proof.
+  induction l as [|y t IH]; intros Hs Hf; cbn [app]; [constructor; constructor|].
+  apply StronglySorted_inv in Hs as [Ht Hy]. inversion Hf as [|? ? Hyx Hf']; subst.
+  constructor; [now apply IH|]. apply Forall_app. split; [assumption | constructor; [assumption | constructor]].
+Qed.
+
+Lemma sorted_rev l : StronglySorted R l -> StronglySorted (fun x y => key x <= key y) (rev l).
+Proof.
+  induction l as [|x t IH]; intros Hs; cbn [rev]; [constructor|].
+  apply StronglySorted_inv in Hs as [Ht Hx]. apply sorted_snoc; [now apply IH|].
+  apply Forall_forall. intros y Hy. apply in_rev in Hy. rewrite Forall_forall in Hx. exact (Hx y Hy).
+Qed.
+End Argsort.
+
+(* index::argsort returns a permutation of the positions 0..len-1 along which the keys ascend *)
+Lemma argsort_sorts (a : list Z) :
+  Permutation (argsort a) (seq 0 (length a))
+  /\ StronglySorted (fun i j => nth i a 0 <= nth j a 0) (argsort a).
+Proof.
+  unfold argsort. set (key := fun k => nth k a 0).
+  destruct (fold_ins_rev key (seq 0 (length a)) [] (SSorted_nil _)) as [S P]. split.
+  - apply perm_trans with (fold_left (fun rl x => ins_rev key x rl) (seq 0 (length a)) []);
+      [symmetry; apply Permutation_rev|]. now rewrite app_nil_r in P.
+  - exact (sorted_rev key _ S).
+Qed.
